@@ -4,5 +4,5 @@
 import sys
 sys.path[:0] = ['/repo' + "/pulser-core", '/repo' + "/pulser-simulation", "/verif"]
 from symx.replay import replay
-sys.exit(replay(check='checks.c01', kernel='vd', shape={'clock': 5, 'maxdef': True},
+sys.exit(replay(check='checks.c01', kernel='vd', shape={'clock': 8, 'maxdef': True},
                 assignment={'min_duration': 1, 'max_duration': 1, 'duration': 1}, label='vd:le_max'))
